@@ -480,4 +480,32 @@ def openObj (s : State) (isDict : Bool) (res : Nat) (data : Option J) : State ×
 
 def extWrite (s : State) (res : Nat) (d : J) : State := s.writeFile res d
 
+
+/-! ### histories -/
+
+/-- one step of a history on a buffered class -/
+inductive Step where
+  | call (h : Handle) (op : Op)
+  | enterObj (oi : Nat)
+  | exitObj (oi : Nat)
+  | enterCls (cap : Option Nat)
+  | exitCls
+  | setCap (n : Nat)
+  | openObj (isDict : Bool) (res : Nat) (data : Option J)
+  | ext (res : Nat) (d : J)
+  | extDel (res : Nat)
+
+def step (s : State) : Step → State
+  | .call h op => (call s h op).1
+  | .enterObj oi => enterObj s oi
+  | .exitObj oi => (exitObj s oi).1
+  | .enterCls cap => (enterCls s cap).1
+  | .exitCls => (exitCls s).1
+  | .setCap n => (setCapacity s n).1
+  | .openObj d r data => (openObj s d r data).1
+  | .ext r d => extWrite s r d
+  | .extDel r => s.deleteFile r
+
+def run (s : State) (steps : List Step) : State := steps.foldl step s
+
 end SC.B
